@@ -33,7 +33,7 @@ CHECKS.update({
     'C02': dict(category='model_checking',
         text=("The exit status is the fold SshRating!Fold over rendered lines; TLC checks ExitRule, StatusDomain and the action property StatusMonotone on "
               "all 4^4 severity mixes across categories and all bounded orderings within a category; each state is replayed under six option sets, and the "
-              "recorded rated-event trace of every run is validated by TLC against TraceRating.tla (every invariant evaluated at every step)."),
+              "recorded rated-event trace of every run is validated by TLC against TraceRating.tla (every invariant evaluated at every step). An entry-point leg starts the same audits through python -m ssh_audit, python -m ssh_audit.ssh_audit and the console script: same status."),
         design='8 C02', note=RATING_NOTE + '; the rated events come from the guarded wrapper around output_algorithm (harness/observe.py)',
         technique='TLC model checking + trace validation of recorded runs against TraceRating.tla'),
     'C03': dict(category='model_checking',
@@ -72,14 +72,14 @@ CHECKS.update({
     'C12': dict(category='model_checking',
         text=("SshAudit!GexProbe mirrors the probe loop against Group(moduli, style); TLC explores all 9216 servers (512 subsets x 3 styles x 2 banners x 3 algorithm "
               "sets), checks GexReportRule / NoSizeWhenRefused / GexRequestsFixed and emits each server's request/answer history and reported size; servers are "
-              "replayed through the CLI (all in thorough) comparing requests, answers, shown size, JSON keysize and size notes (texts from SshRating via TLC)."),
+              "replayed through the CLI (all in thorough) comparing requests, answers, shown size, JSON keysize and size notes (texts from SshRating via TLC). A fault leg cuts short / replaces / withholds the k-th group message; TraceAudit's exit step binds the sizes the report shows to SshAudit!reported under those faults."),
         design='8 C12', note=AUDIT_NOTE + '; the Python group selection is bound to the TLA+ one by comparing every answer', technique='exhaustive TLC exploration of the server family; every terminal state replayed'),
     'C19': dict(category='model_checking',
         text=("FootprintBounded, KexReqDiscipline, AllClosedAtExit, ProbesOnlyAfterHandshake are invariants of SshAudit.tla model-checked over the fault family and the "
               "rate loop (every reply pattern), and evaluated on every state of the recorded network traces of real runs (C09/C11/C12 families, rate-test peers, "
               "policy and make-policy audits, SSH-1 peers, peers refusing both versions, repeated host-key names, multi-homed names, with and without --skip-rate-test) "
               "through TraceAudit.tla. The last clause (attack modes only when requested; --skip-rate-test honoured) is decided on the command line itself: SshCli.tla "
-              "enumerates every option set of bounded size with its expected configuration and each is replayed into process_commandline()."),
+              "enumerates every option set of bounded size with its expected configuration and each is replayed into process_commandline(). Rate-check peers that leave connections silent (the check ends with its 1.5 s window); target lists sharing a host: connections counted per listed server."),
         design='8 C19, 14.2', note=AUDIT_NOTE, technique='TLC model checking + trace validation of connection logs against TraceAudit.tla'),
 })
 
@@ -90,13 +90,13 @@ CHECKS.update({
         text=("SshMulti.tla models the thread pool, the per-thread table copies (as dirty sets) and the per-worker configuration copies; TLC checks Isolation over all "
               "lists of <= 3 archetypes (one per edit channel), 1..3 threads and every interleaving, and confirms that the weaker mechanisms (tables discarded by the "
               "main thread only; shared configuration) violate it. Real runs: every ordered pair (+ triples) of 9 server archetypes under every pool size and feasible "
-              "completion order, text/JSON/policy; each block must equal the single-target result byte for byte, and the begin/end traces are validated against TraceMulti.tla."),
+              "completion order, text/JSON/policy; each block must equal the single-target result byte for byte, and the begin/end traces are validated against TraceMulti.tla. SshSched.tla generates every schedule of two worker threads with a bounded number of preemptions (quick: 1, one pair 2; thorough: 2, every pair of positions visited); harness/sched.py replays each by stopping the real threads at their network operations; every target's JSON equals its single-target result under every schedule."),
         design='8 C07', note=MULTI_NOTE, technique='TLC model checking of SshMulti.tla + schedule-controlled replay + trace validation (TraceMulti.tla)'),
     'C08': dict(category='model_checking',
         text=("SshMulti.tla with outcome archetypes (healthy, connection error, exception, SystemExit in the worker): TLC checks Blocks, ExitIsMax, Framing and liveness "
               "RunEnds over all lists of <= 3 outcomes x 1..3 threads x interleavings, and confirms they fail when a worker's SystemExit escapes. Real runs: healthy targets "
               "mixed with 11 failure archetypes in every position, text and JSON; block count/attribution/equality, exit status = highest rank, single JSON array; traces "
-              "validated against TraceMulti.tla."),
+              "validated against TraceMulti.tla. Policy audits over target lists; SshSched schedules replayed for a healthy probed target next to failing ones."),
         design='8 C08', note=MULTI_NOTE, technique='TLC model checking of SshMulti.tla + fault-archetype replay + trace validation (TraceMulti.tla)'),
 })
 
@@ -127,7 +127,7 @@ CHECKS.update({
               "SSH-1 messages are round-tripped against the independent codec. The functions are pure: the assurance is the replay of TLC's enumeration. "
               "The reader over a TCP stream is a state machine of its own (SshStream.tla: Recv/Take per ensure_read, SSH-2 and SSH-1 framing): TLC checks Aligned, "
               "NoOverread, AllReturned and Terminates for every packet sequence and every segmentation with up to two cuts, and each case is replayed into read_packet. "
-              "The framing arithmetic for every payload length (not only 0..4096) is a TLAPS theorem (SshFrameProof.tla) re-checked by tlapm on every run."),
+              "The framing arithmetic for every payload length (not only 0..4096) is a TLAPS theorem (SshFrameProof.tla) re-checked by tlapm on every run. A threads leg audits SSH-1 targets concurrently under schedule perturbation and under SshSched plans at source-line granularity (a worker preempted anywhere in the tool's code)."),
         design='8 C10, 9, 14.2', note='TLC; the independent codec harness/wire.py; SSH-1 CRC-32 values come from zlib (outside TLA+)', technique='TLC-checked reference codec; enumerated value/bytes pairs replayed into the buffer classes and packet framing'),
     'C16': dict(category='model_checking',
         text=("SshBanner.tla models the peer's identification exchange (other lines, banner built from parts, CR LF / LF) and the tool's reader (split, skip blank, header, "
@@ -151,7 +151,7 @@ CHECKS.update({
         text=("SshOutput.tla models the output buffer (levels, always-print, sections, batch, colours); TLC checks LevelOnlyRemoves, ColourOnlyWraps, BatchOnlyDrops, NoRewrite "
               "for every call sequence up to MaxCalls x every option set and each case is replayed into the real OutputBuffer. Through the CLI the same audit is rendered under all 72 "
               "combinations of -b, -v, -n, -l, -j/-jj for peers covering every severity mix, with the expected findings and status from SshRating (TLC): status constant, findings "
-              "at level L = the expected findings filtered to L, colour codes only wrap, -j/-jj equal, repeat runs and 8 hash seeds (fresh interpreters) byte-identical."),
+              "at level L = the expected findings filtered to L, colour codes only wrap, -j/-jj equal, repeat runs and 8 hash seeds (fresh interpreters) byte-identical. SshOutput models two-call lines (Result: + verdict); SSH-1 peers and policy audits are run under every option set (same status, one JSON document, no traceback)."),
         design='8 C15', note=RATING_NOTE, technique='TLC model checking of the buffer laws + replay; CLI option matrix against TLC-evaluated findings'),
 })
 
